@@ -212,7 +212,8 @@ func (g *bindGen) insertExpr(p *stmtPlan) string {
 			cols = append(cols, r.pick([]string{"c1", "c2", "name", "id", "t.c3", "\"q c\""}))
 			switch r.intn(4) {
 			case 0:
-				vals = append(vals, r.pick([]string{"'lit'", "1", "NULL", "f(1, 'a,b')", "(1+2)", "'it''s'", "/* c */ 2"}))
+				vals = append(vals, r.pick([]string{"'lit'", "1", "NULL", "f(1, 'a,b')", "(1+2)", "'it''s'", "/* c */ 2",
+				"7 -- seven\n", "'x' -- k\r\n ", "1 ", "2\t", "3 /* three */ ", "now( )  "}))
 			case 1:
 				t := r.pick(goodMaps)
 				p.use(t, true)
